@@ -27,11 +27,15 @@ CTXS = [[], [], [], [], [], [], [], [], ["numpy.einsum"], ["numpy.numpylike"], [
 # ------------------------------------------------------------------------------------------------
 # pool of descriptors (a pure function of the master seed and the pool size)
 # ------------------------------------------------------------------------------------------------
-ALIAS_KINDS = ["space", "kworder", "kw-float", "kw-npint", "kw-npfloat", "kw-bool", "kw-0d-int", "kw-0d-float", "kw-seq-tuple", "kw-seq-array", "kw-seq-array-float", "neighbour", "tensor-factory", "tensor-factory-varkw", "tensor-factory-name", "tensor-dtype", "tensor-scalar"]
+ALIAS_KINDS = ["space", "kworder", "kw-float", "kw-npint", "kw-npfloat", "kw-bool", "kw-0d-int", "kw-0d-float", "kw-seq-tuple", "kw-seq-array", "kw-seq-array-float", "neighbour", "tensor-factory", "tensor-factory-varkw", "tensor-factory-name", "tensor-dtype", "tensor-scalar", "graph-toggle", "backend-name"]
 
 
 def applicable_alias_kinds(d):
     out = ["space"]
+    if not d["op"].startswith(("solve", "matches")):
+        out.append("graph-toggle")
+        if not d.get("backend") and not d["op"].startswith("adapt:"):
+            out.append("backend-name")
     num_kw = {k: v for k, v in d["kw"].items() if isinstance(v, int | float) and not isinstance(v, bool)}
     int_kw = {k: v for k, v in num_kw.items() if isinstance(v, int)}
     if len(d["kw"]) > 1:
@@ -58,6 +62,10 @@ def make_alias(r, d, kind):
     int_kw = sorted(k for k, v in d["kw"].items() if isinstance(v, int) and not isinstance(v, bool))
     if kind == "space":
         d["desc"] = d["desc"].replace(" ", "  ", 1) if " " in d["desc"] else d["desc"] + " "
+    elif kind == "graph-toggle":
+        d["graph"] = not d.get("graph")  # the cache entry holds (function, code): the other half must be served as faithfully
+    elif kind == "backend-name":
+        d["backend"] = r.choice(["numpy", "numpy", "numpy.numpylike"])
     elif kind == "kworder":
         items = list(d["kw"].items())
         r.shuffle(items)
